@@ -13,9 +13,10 @@ CONSTANTS Keys = {"k0", "k1"}
           MaxSeq = 1
           MaxOps = 3
           MaxRounds = 1
+          TrackW0 = FALSE
           UseRun = FALSE
           Timely = FALSE
           Devs = {}
-INVARIANTS TypeOK NewestWins RoutingConsistent AllServed Healed ErrorsReported SeqRoundMatches
+INVARIANTS TypeOK NewestWins RoutingConsistent AllServed Healed ErrorsReported
 PROPERTIES RepubOnlyRefreshes SeqMonotone BadUntouched
 CHECK_DEADLOCK FALSE
